@@ -138,13 +138,27 @@ func specSumAdd(a *AddExp, env Env, n int) int {
 	return prev
 }
 
+// specConstTail: when constant and non-constant terms are mixed, the folded constant c is attached
+// after the n non-constant terms with a consistent sign: "+ c" or "- (-c)" (C06: the value of the
+// expression is that of the source, whatever way its constant terms are interleaved).
+func specConstTail(terms []Exp, ops []string, c int, n int) bool {
+	if c == 0 || n == 0 {
+		return true
+	}
+	if len(terms) != n+1 || len(ops) < 1 || !specIsNum(terms[n]) {
+		return false
+	}
+	op := ops[len(ops)-1]
+	return (op == "+" && specNumVal(terms[n]) == int64(c)) || (op == "-" && specNumVal(terms[n]) == int64(-c))
+}
+
 //@ func (*AddExp).Eval
 //@ props C06 C11
 //@ requires[A1] a != nil && env != nil && a.HeadExp != nil && len(a.Operators) == len(a.TailExps)
 //@ requires[A11] forall(0, len(a.TailExps), func(k int) bool { return a.TailExps[k] != nil })
 //@ loop 0 invariant[sum] constSum == specSumAdd(a, env, iter)
 //@ loop 0 invariant[all] (len(newTerms) == 0) == specAllFoldable(a, env, iter)
-//@ loop 1 invariant true
+//@ loop 1 invariant[consttail@C06] specConstTail(finalTerms, finalOps, constSum, len(newTerms))
 //@ ensures[sum] specAllFoldable(a, env, len(a.Operators)) ==> result1 && specIsNum(result0) && specNumVal(result0) == int64(specSumAdd(a, env, len(a.Operators)))
 
 // specNumberFactorVal: the value of a decimal literal factor.
